@@ -76,6 +76,14 @@ class expr(object):
 
         rhs_e = pop_expr()
         lhs_e = pop_expr()
+        
+        if rhs_e is self.em and lhs_e is not self.em:
+            # Python evaluates 'x < y' as y.__gt__(x) when the type of y is
+            # a subclass of the type of x (an expression compared with a 
+            # subscripted list element): the operands sit on the expression
+            # stack in the order they were written, this object is the 
+            # left-hand operand of the operator it was called with
+            lhs_e, rhs_e = rhs_e, lhs_e
        
         e = ExprBinModel(lhs_e, op, rhs_e)
         if in_srcinfo_mode():
